@@ -12,7 +12,7 @@ def main(tier: str, seed: int) -> int:
             "instances with <= 4 facts of the universe, all answer sets; multiset equality on voc(P); result must "
             "ground (unsafe result = violation). non-trivial = projection split the rule and the outcome varies")
     bounds = {"heads": len(fam.HEADS), "menu": len(fam.MENU), "literals": kmax, "max_facts": 4}
-    return generic.family_main(PROP, tier, seed, fam.jobs(tier), rule, bounds)
+    return generic.family_main(PROP, tier, seed, generic.with_variants(fam.jobs(tier), tier), rule, dict(bounds, variants=True))
 
 
 def replay(path: str) -> int:
